@@ -743,10 +743,11 @@ func main() {
 var hangs atomic.Int32
 
 type callResult struct {
-	stanzas []*age.Stanza
-	labels  []string
-	fileKey []byte
-	err     error
+	stanzas  []*age.Stanza
+	labels   []string
+	fileKey  []byte
+	err      error
+	noLabels bool // the entry point does not return labels
 }
 
 // A ClientUI is meant to be shared: the command line tool has one for the
@@ -839,6 +840,7 @@ func runConvOn(r *mon.Run, env *plug.Env, name string, c *conv, cache *uiCache) 
 	var ownMu sync.Mutex
 	callsP, cmu := &ownCalls, &ownMu
 	var ui *plugin.ClientUI
+	lateFill := func() {}
 	if cache != nil && c.id%7 != 0 {
 		su := cache.get(uiKey{c.ui.disp != 0, c.ui.req != 0, c.ui.conf != 0, c.timer}, c.ui)
 		// the plugin name is prefixed by the library in what it tells the callbacks
@@ -861,6 +863,16 @@ func runConvOn(r *mon.Run, env *plug.Env, name string, c *conv, cache *uiCache) 
 		maxOnOneUI.Unlock()
 	} else {
 		ui = buildUI(c.ui, callsP, cmu, c.timer)
+		if c.id%2 == 0 {
+			// the caller hands the constructor a ClientUI it fills in
+			// AFTERWARDS (the callbacks are read through the pointer when a
+			// plugin command arrives, not at construction time)
+			built := ui
+			ui = &plugin.ClientUI{}
+			lateFill = func() {
+				ui.DisplayMessage, ui.RequestValue, ui.Confirm, ui.WaitTimer = built.DisplayMessage, built.RequestValue, built.Confirm, built.WaitTimer
+			}
+		}
 	}
 
 	data := []byte{1, 2, 3, byte(c.id), byte(c.id >> 8)}
@@ -875,6 +887,13 @@ func runConvOn(r *mon.Run, env *plug.Env, name string, c *conv, cache *uiCache) 
 			return
 		}
 		call = func() callResult {
+			if c.id%3 == 1 {
+				// the other entry point of the same value (what age.Encrypt
+				// uses when a wrapper hides the optional interface): the
+				// conversation must be the same, the labels are not returned
+				s, err := rc.Wrap(wrapFileKey)
+				return callResult{stanzas: s, err: err, noLabels: true}
+			}
 			s, l, err := rc.WrapWithLabels(wrapFileKey)
 			return callResult{stanzas: s, labels: l, err: err}
 		}
@@ -895,6 +914,10 @@ func runConvOn(r *mon.Run, env *plug.Env, name string, c *conv, cache *uiCache) 
 		if c.machine == recipientMachine {
 			rc := id.Recipient()
 			call = func() callResult {
+				if c.id%3 == 1 {
+					s, err := rc.Wrap(wrapFileKey)
+					return callResult{stanzas: s, err: err, noLabels: true}
+				}
 				s, l, err := rc.WrapWithLabels(wrapFileKey)
 				return callResult{stanzas: s, labels: l, err: err}
 			}
@@ -906,6 +929,7 @@ func runConvOn(r *mon.Run, env *plug.Env, name string, c *conv, cache *uiCache) 
 		}
 	}
 
+	lateFill()
 	done := make(chan callResult, 1)
 	go func() {
 		defer func() {
@@ -1096,7 +1120,7 @@ func runConvOn(r *mon.Run, env *plug.Env, name string, c *conv, cache *uiCache) 
 				viol("final-stanza-differs", "stanza %d is %s %v (%d body bytes), plugin sent %s %v (%d)", i, s.Type, s.Args, len(s.Body), w.Type, w.Args, len(w.Body))
 			}
 		}
-		if !sameStrings(res.labels, fin.labels) {
+		if !res.noLabels && !sameStrings(res.labels, fin.labels) {
 			viol("final-labels", "labels %v, plugin sent %v", res.labels, fin.labels)
 		}
 	case "filekey":
